@@ -40,7 +40,11 @@ impl FieldAccess {
 
 impl ReturnType for FieldAccess {
     fn return_type(&self) -> crate::variable::Type {
-        self.var.return_type().field_type(&self.ident).unwrap()
+        // None only for an operand of static type `!` (e.g. narrowed to a diverging branch by the folding pass)
+        self.var
+            .return_type()
+            .field_type(&self.ident)
+            .unwrap_or(crate::variable::Type::Never)
     }
 }
 
